@@ -26,7 +26,12 @@ typedef int qform;    /* a QXmppDataForm value */
 typedef int qmap;     /* a QMap<QString, QXmppDataForm::Field> value; 0 = the empty map */
 typedef int qvar;     /* a QVariant value */
 typedef int qba;      /* a QByteArray value; 0 = empty */
+#ifndef C20_BOUNDED
 typedef struct QLst { int id; int n; } QLst;   /* a QList<T> value: n elements LAT(id, 0) .. LAT(id, n-1) */
+#else
+#define BL 4                                    /* bounded stand-in (bounded.h): a list is its (at most BL) elements */
+typedef struct QLst { int n; int e[BL]; } QLst;
+#endif
 
 /* ---------------------------------------------------------------- strings */
 #ifndef C20_BOUNDED
@@ -67,6 +72,7 @@ static inline void QSB_sb_str(QSB *r, const QSB *x, qstr b)
 static inline void QSB_sb_chr(QSB *r, const QSB *x, quint16 c) { QSB_sb_str(r, x, qchar_str(c)); }
 static inline void qstr_append(qstr *s, qstr a) { *s = qs_app(*s, a); }
 static inline void qstr_append_chr(qstr *s, quint16 c) { *s = qs_app(*s, qchar_str(c)); }
+#ifndef C20_BOUNDED
 #define QSB_STEP(i) if (x->n > (i)) v = qs_app(v, x->a[i]);
 static inline void qstr_append_sb(qstr *s, const QSB *x)
 {
@@ -74,10 +80,12 @@ static inline void qstr_append_sb(qstr *s, const QSB *x)
   QSB_STEP(0) QSB_STEP(1) QSB_STEP(2) QSB_STEP(3) QSB_STEP(4) QSB_STEP(5) QSB_STEP(6) QSB_STEP(7) QSB_STEP(8) QSB_STEP(9)
   *s = v;
 }
+#endif
 qba __CPROVER_uninterpreted_utf8(qstr s);
 static inline qba qstr_toUtf8(qstr s) { return s == 0 ? 0 : __CPROVER_uninterpreted_utf8(s); }
 
 /* ---------------------------------------------------------------- identities: the four getters are functions of the value */
+#ifndef C20_BOUNDED
 qstr __CPROVER_uninterpreted_ident_category(ident e);
 qstr __CPROVER_uninterpreted_ident_type(ident e);
 qstr __CPROVER_uninterpreted_ident_language(ident e);
@@ -86,6 +94,15 @@ qstr __CPROVER_uninterpreted_ident_name(ident e);
 #define ID_TYPE(e) __CPROVER_uninterpreted_ident_type(e)
 #define ID_LANG(e) __CPROVER_uninterpreted_ident_language(e)
 #define ID_NAME(e) __CPROVER_uninterpreted_ident_name(e)
+#else      /* bounded stand-in: an identity is an index into a table of NID concrete identities */
+#define NID 8
+typedef struct BIdent { qstr category, type, language, name; } BIdent;
+BIdent gb_ident[NID];
+#define ID_CAT(e) gb_ident[(e) & (NID - 1)].category
+#define ID_TYPE(e) gb_ident[(e) & (NID - 1)].type
+#define ID_LANG(e) gb_ident[(e) & (NID - 1)].language
+#define ID_NAME(e) gb_ident[(e) & (NID - 1)].name
+#endif
 static inline qstr ident_category(ident e) { return ID_CAT(e); }
 static inline qstr ident_type(ident e) { return ID_TYPE(e); }
 static inline qstr ident_language(ident e) { return ID_LANG(e); }
